@@ -36,8 +36,10 @@ TEMPLATES = [
     ("permit tcp any {range} any {range}", "range"),  # `range` on the generated side
     ("10 deny tcp host 10.0.0.1 any", None),
     ("permit tcp any {other} any {other} log", "other"),  # other side carries a port, log
+    ("deny udp any {orange} any {orange}", "orange"),      # other side carries a RANGE
 ]
 PTOKENS = ["0", "1", "6", "17", "255", "1-2", "5-7", "254-255"]
+PTOKENS_MORE = ["4", "8", "41", "47", "50", "51", "88", "89", "94", "103", "108", "3-9", "40-42"]  # names on some platforms only
 PTEMPLATES = ["permit ip any any", "deny ip host 10.0.0.1 any log",
               "10 permit ip any 10.0.0.0 0.0.0.255", "permit tcp any eq 5000 any eq 6000 log",
               "permit tcp any eq 3000 any", "deny udp any any range 3000 3010 log"]  # one side only
@@ -119,6 +121,8 @@ def _template(ti, side):
         fill[gen] = "eq 9"
     elif kind == "range":
         fill[gen] = "range 8 9"
+    elif kind == "orange":
+        fill[oth] = "range 1024 1030"
     else:
         fill[oth] = "eq 443"
     parts = text.split("{" + kind + "}")
@@ -144,8 +148,9 @@ def check_ports(platform, ti, side, request, port_count, port_range, port_nr, ct
     except Exception as ex:  # noqa
         ctx.viol("range_ports:undocumented_exception", case, repr(ex), "lines or ValueError/TypeError")
         return
+    tkind = TEMPLATES[ti][1]
     _check_lines(platform, template, side, request, proto, lines, port_count, port_range,
-                 TEMPLATES[ti][1], case, ctx)
+                 None if tkind in ("other", "orange") else tkind, case, ctx)
 
 
 def _check_lines(platform, template, side, request, proto, lines, port_count, port_range, tkind,
@@ -273,8 +278,11 @@ def _protocols(platform, ctx):
 
     from vf.refsem.reader import PROTO_NAMES
 
-    for n in (1, 2, 3):
-        for toks in product(PTOKENS, repeat=n):
+    seqs = [toks for n in (1, 2, 3) for toks in product(PTOKENS, repeat=n)]
+    seqs += [(t,) for t in PTOKENS_MORE] + [(a, b) for a in PTOKENS_MORE for b in ("6", "1-2")] + \
+        [(b, a) for a in PTOKENS_MORE for b in ("17",)]
+    for _once in (1,):
+        for toks in seqs:
             request = ",".join(toks)
             want = set()
             for t in toks:
